@@ -205,7 +205,7 @@ impl Monitor for C04 {
         let mut out = Vec::new();
         for v in ev.ix_views() {
             let Some(c) = wpix::decode(v.ix) else { continue };
-            if !AUTH_SLOTS.iter().any(|s| c.idx(s).is_some()) {
+            if !AUTH_SLOTS.iter().any(|s| c.idx(s).is_some()) && c.name() != "initialize_config" {
                 continue;
             }
             // sample: every kind often enough, not every instance
